@@ -35,7 +35,7 @@ type srvCmd struct {
 // srvStream is the server side of one Modify RPC.
 type srvStream struct {
 	cmd      chan srvCmd
-	recvd    atomic.Int64 // requests received from the client
+	recvd    atomic.Int64  // requests received from the client
 	recvDone chan struct{} // closed when the client half-closed or the stream broke
 	ended    chan struct{} // closed when the handler returned
 	// eofEnds: return OK from the handler when the client half-closes (what a real server does)
